@@ -51,8 +51,10 @@ def history_case(rng, maxlen):
             kind = "wrong-key"; proof = pyref.reconnect_proof(s.U, cd, cur, flip(s.K, rng.randrange(320)))
         elif r < 0.81:
             kind = "wrong-user"; proof = pyref.reconnect_proof(s.U + b"X" if len(s.U) < 16 else s.U[:-1], cd, cur, s.K)
-        elif r < 0.9:
+        elif r < 0.86:
             kind = "proof-bit-flip"; proof = flip(pyref.reconnect_proof(s.U, cd, cur, s.K), rng.randrange(160))
+        elif r < 0.9:
+            kind = "proof-two-place-change"; proof = rng.choice(two_place_flips(rng, pyref.reconnect_proof(s.U, cd, cur, s.K), 4))
         else:
             kind = "cd-bit-flip"; proof = pyref.reconnect_proof(s.U, cd, cur, s.K); cd = flip(cd, rng.randrange(128))
         kinds.add(kind)
@@ -68,7 +70,7 @@ def history_case(rng, maxlen):
 
 def generate(rng, tier):
     cs = []
-    n, maxlen = (400, 40) if tier == "quick" else (4000, 400)
+    n, maxlen = (400, 40) if tier == "quick" else (20000, 1000)
     for _ in range(n):
         c = history_case(rng, maxlen if rng.random() < 0.3 else 8)
         if c: cs.append(c)
